@@ -66,6 +66,16 @@ class optional_node_property(base_rw_property[Optional[_M], _U]):
         self._inner_field.__set__(instance, value)
 
 
+def _check_detachable(values: Iterable[base.RawModel]) -> None:
+    """Refuses nodes that still live inside another tree, before anything is modified."""
+    for value in values:
+        token_store = value.token_store
+        if token_store and (
+                value.first_token is not token_store.get_first() or
+                value.last_token is not token_store.get_last()):
+            raise ValueError('Cannot reuse node. Consider making a copy.')
+
+
 class RepeatedNodeWrapperUpdateHandler(abc.ABC):
 
     @abc.abstractmethod
@@ -196,6 +206,7 @@ class RepeatedNodeWrapper(MutableSequence[_M]):
         assert isinstance(value, Iterable)
         values = list(value)
         r = indexes.range_from_index(index, len(self._repeated.items))
+        _check_detachable(values)
         separators_before_last = (
             self._repeated.token_store.get_prev(self._repeated.items[0].first_token)
             if self._repeated.items else None)
